@@ -13,6 +13,7 @@ import (
 	"github.com/modernizing/coca/pkg/application/bs"
 	"github.com/modernizing/coca/pkg/application/call"
 	"github.com/modernizing/coca/pkg/application/rcall"
+	"github.com/modernizing/coca/pkg/domain/api_domain"
 	"github.com/modernizing/coca/pkg/domain/core_domain"
 	"verif/engine"
 )
@@ -287,7 +288,7 @@ func c07Alphabet(kinds ...string) []c07Op {
 	return ops
 }
 
-var c07AllOps = c07Alphabet("ident", "full", "bs", "api", "call", "rcall", "call-lookup")
+var c07AllOps = c07Alphabet("ident", "full", "bs", "api", "call", "rcall", "call-lookup", "api-chains", "call-deep")
 
 func c07OpIndex(o c07Op) int {
 	for i, x := range c07AllOps {
@@ -346,6 +347,14 @@ func c07Setup(dir string) *c07Env {
 		{Pkg: "p", Class: "A", Name: "a", Calls: []GCall{{Pkg: "p", Class: "A", Name: "b"}, {Pkg: "p", Class: "A", Name: "b"}}},
 		{Pkg: "p", Class: "A", Name: "b", Calls: []GCall{{Pkg: "p", Class: "A", Name: "c"}}},
 		{Pkg: "p", Class: "A", Name: "c", Calls: []GCall{{Pkg: "p", Class: "A", Name: "a"}, {Pkg: "p", Class: "A", Name: "c"}}},
+		// a chain that uses most of the expansion budget of one call-graph run (the budget is a package-level counter)
+		{Pkg: "p", Class: "D", Name: "d0", Calls: []GCall{{Pkg: "p", Class: "D", Name: "d1"}}},
+		{Pkg: "p", Class: "D", Name: "d1", Calls: []GCall{{Pkg: "p", Class: "D", Name: "d2"}}},
+		{Pkg: "p", Class: "D", Name: "d2", Calls: []GCall{{Pkg: "p", Class: "D", Name: "d3"}}},
+		{Pkg: "p", Class: "D", Name: "d3", Calls: []GCall{{Pkg: "p", Class: "D", Name: "d4"}}},
+		{Pkg: "p", Class: "D", Name: "d4", Calls: []GCall{{Pkg: "p", Class: "D", Name: "d5"}}},
+		{Pkg: "p", Class: "D", Name: "d5", Calls: []GCall{{Pkg: "p", Class: "D", Name: "d6"}}},
+		{Pkg: "p", Class: "D", Name: "d6"},
 	}}
 	e.graph = g.ToDeps()
 	c07env = e
@@ -403,6 +412,16 @@ func (e *c07Env) run(op c07Op) string {
 		return call.NewCallGraph().Analysis("p.A.a", e.graph, false)
 	case "call-lookup":
 		return call.NewCallGraph().Analysis("p.A.c", e.graph, true)
+	case "call-deep":
+		return call.NewCallGraph().Analysis("p.D.d0", e.graph, false)
+	case "api-chains":
+		// the other entry point of the call package: one chain per API, two APIs (the deep chain last)
+		apis := []api_domain.RestAPI{
+			{Uri: "/a", HttpMethod: "GET", PackageName: "p", ClassName: "A", MethodName: "a"},
+			{Uri: "/d", HttpMethod: "POST", PackageName: "p", ClassName: "D", MethodName: "d0"},
+		}
+		dot, sizes := call.NewCallGraph().AnalysisByFiles(apis, e.graph, nil)
+		return dot + e.relJSON(sizes)
 	case "rcall":
 		return rcall.NewRCallGraph().Analysis("p.A.a", e.graph, func(map[string][]string) {})
 	}
@@ -534,7 +553,7 @@ func c07Explore(ctx *engine.Ctx) *engine.Report {
 		{"full", c07Alphabet("full"), dq(4, 8), true},
 		{"bs", c07Alphabet("bs"), dq(4, 8), true},
 		{"api", c07Alphabet("api"), dq(4, 8), true},
-		{"graphs", c07Alphabet("call", "rcall", "call-lookup"), dq(6, 10), true},
+		{"graphs", c07Alphabet("call", "rcall", "call-lookup", "api-chains", "call-deep"), dq(5, 8), true},
 		{"mixed", c07AllOps, dq(2, 3), true},
 	}
 	var cands []engine.Candidate
